@@ -202,13 +202,13 @@ func (m *SessionManager) CreateSession(clientMAC, serverMAC net.HardwareAddr) (*
 
 	// Find next available session ID
 	for {
+		if m.nextID == 0 {
+			m.nextID = 1 // Session ID 0 is reserved for discovery
+		}
 		if _, exists := m.sessions[m.nextID]; !exists {
 			break
 		}
 		m.nextID++
-		if m.nextID == 0 {
-			m.nextID = 1 // Skip 0
-		}
 	}
 
 	session, err := NewSession(m.nextID, clientMAC, serverMAC)
@@ -245,8 +245,26 @@ func (m *SessionManager) RemoveSession(id uint16) {
 	defer m.mu.Unlock()
 
 	if session, ok := m.sessions[id]; ok {
-		delete(m.macToSession, session.ClientMAC.String())
 		delete(m.sessions, id)
+		m.unindexMACLocked(session)
+	}
+}
+
+// unindexMACLocked drops the MAC index entry of a session that has just been
+// removed from m.sessions. The index holds one session per MAC: the entry is
+// touched only if it points at the removed session, and is re-pointed at
+// another live session of the same MAC if there is one.
+func (m *SessionManager) unindexMACLocked(removed *Session) {
+	key := removed.ClientMAC.String()
+	if cur, ok := m.macToSession[key]; !ok || cur != removed.ID {
+		return
+	}
+	delete(m.macToSession, key)
+	for id, other := range m.sessions {
+		if other.ClientMAC.String() == key {
+			m.macToSession[key] = id
+			return
+		}
 	}
 }
 
@@ -283,8 +301,8 @@ func (m *SessionManager) CleanupExpired(timeout time.Duration) int {
 		session.mu.RUnlock()
 
 		if inactive {
-			delete(m.macToSession, session.ClientMAC.String())
 			delete(m.sessions, id)
+			m.unindexMACLocked(session)
 			removed++
 		}
 	}
